@@ -21,7 +21,7 @@ import (
 func init() {
 	register(&Prop{
 		ID: "C06",
-		Rule: "generated valid PBF files (1..4 blocks) cut at EVERY byte offset from 0 to the full length; and every damage class (oversized BlobHeader length, negative and oversized datasize, wrong raw_size, corrupt zlib data, lzma-only blob, blob without data, unknown block type, unsupported required feature, dense group without ids / lat / lon, string reference beyond the table in dense / way / relation, info column shorter than ids, way lat column longer than refs, relation types shorter than roles, plain (non-dense) Node group) applied at every block position, decoder counts 1..4; every damaged scan runs in an isolated child process so that a crash is observed as the result of that one case; " +
+		Rule: "generated valid PBF files (1..4 blocks) cut at EVERY byte offset from 0 to the full length; and every damage class (oversized BlobHeader length, negative and oversized datasize, raw_size too large / too small / zero, corrupt zlib data, lzma-only blob, blob without data, unknown block type, unsupported required feature, dense group without ids / lat / lon, string reference beyond the table in dense / way / relation, info column shorter than ids, way lat column longer than refs, relation types shorter than roles, plain (non-dense) Node group) applied at every block position, decoder counts 1..4; every damaged scan runs in an isolated child process so that a crash is observed as the result of that one case; " +
 			"non-trivial = every op; distinct = distinct op line",
 		Gen:  c06Gen,
 		Exec: c06Exec,
@@ -35,7 +35,7 @@ func init() {
 	})
 }
 
-var c06Classes = []string{"hdrsize-oversized", "datasize-negative", "datasize-oversized", "rawsize-wrong", "zlib-corrupt", "encoding-lzma",
+var c06Classes = []string{"hdrsize-oversized", "datasize-negative", "datasize-oversized", "rawsize-wrong", "rawsize-small", "rawsize-zero", "zlib-corrupt", "encoding-lzma",
 	"encoding-none", "type-unknown", "feature-unsupported", "dense-no-ids", "dense-no-lat", "dense-no-lon", "string-oob-dense", "string-oob-way",
 	"string-oob-rel", "column-short", "way-lat-longer", "rel-types-short", "plain-nodes", "tagkey-oob-dense"}
 
@@ -118,6 +118,18 @@ func c06Damaged(pf *PFile, class string, pos int) ([]byte, bool) {
 		reframe(frameOpt{datasize: &n}, false)
 	case "rawsize-wrong":
 		reframe(frameOpt{rawSizeDelta: 1 + pos}, true)
+	case "rawsize-small":
+		p, _, _ := payload()
+		if len(p) < 2+pos {
+			return nil, false
+		}
+		reframe(frameOpt{rawSizeDelta: -(1 + pos)}, true)
+	case "rawsize-zero":
+		p, _, _ := payload()
+		if len(p) == 0 {
+			return nil, false
+		}
+		reframe(frameOpt{rawSizeDelta: -len(p)}, true)
 	case "zlib-corrupt":
 		reframe(frameOpt{corruptZlib: true}, true)
 	case "encoding-lzma":
